@@ -24,6 +24,8 @@ def vcs_for(contract, case, solver_timeout=3000):
         I = E.Interp(st, contracts=REGISTRY, loop_invariants=contract.invariants, hooks=hooks)
         I.verifying = key
         ns = contract.setup(I, case)
+        if getattr(ns, 'outer', None) is not None:       # nested function: enclosing frame from setup
+            fv.env = ns.outer
         for i, c in enumerate(contract.pre(ns)):
             cl = c[1] if isinstance(c, tuple) else c
             st.assume(_t(cl))
